@@ -24,6 +24,7 @@ type Ev struct {
 	Items  []KV   `json:"items"`
 	Exists bool   `json:"exists"`
 	Count  int    `json:"count"`
+	Opts   string `json:"opts"`
 	Name   string `json:"name,omitempty"`
 	Note   string `json:"note,omitempty"`
 }
